@@ -1,5 +1,117 @@
-import AiocoapModel.Basic.Bytes
-/-! Line protocol for C08 (not built yet). -/
+import AiocoapModel.Driver.MsgLayer
+import AiocoapModel.Observe.Server
+/-!
+Line protocol of the observe-server model (C08).
+
+`C08 <exchangeLifetime> <emptyAckDelay> <firstMid> <maxRetransmit> <draws,comma|-> <event>*`
+
+events (`t` = tick; booleans 0/1; `-` = none):
+  `R@t:remote:mcLocal:mtype:code:mid:tokenhex:obs:body`   datagram received (as in the MsgLayer driver)
+  `E@t:remote`  transport error      `X@t`  shutdown      `A@t`  just advance
+  `U@t:code`             state change + `updated_state(None | Message(code))`
+  `T@t:sv:code:last`     state change + `servobs.trigger(None | Message(code), is_last=last)`
+  `D@t:sv`               `servobs.deregister()`
+  `L@t:sv:code:exc`      the suspended render of task `sv` returns `code` / raises
+  `W@t:sv:acc:plan…`     task `sv` runs one step; `acc` = add_observation accepts;
+                         plan = `-` (no render starts) | `s` (render suspends) | `i:code:exc`
+
+Before an event at `t` the message-layer timers due before `t` fire earliest-first (for `W`, whose
+cause may be such a timer: due up to and including `t`); a timer due exactly at the `t` of any other
+event makes the output start with `TIE`.  Output: every output record prefixed with the tick of the
+event that produced it, separated by `;`, in order.
+-/
+namespace Aiocoap.Observe.Server
+
+open Aiocoap.MsgLayer (parseBool parseOpt optNatStr outStr)
+
+def outStr' : Out → String
+  | .net o => outStr o
+  | .count n => s!"c:{n}"
+  | .cancelled sv => s!"k:{sv}"
+  | .render sv ver => s!"g:{sv}:{ver}"
+  | .notify sv code obs body il => s!"n:{sv}:{code}:{optNatStr obs}:{body}:{if il then 1 else 0}"
+
+def parsePlan : List String → Option Plan
+  | ["-"] => some .susp
+  | ["s"] => some .susp
+  | ["i", code, exc] => do pure (.imm (← code.toNat?) (← parseBool exc))
+  | _ => none
+
+/-- `none` inside = just advance; the outer `none` = unparsable; `Except.error` = out of model -/
+def parseEv (s : String) : Option (Nat × Option Ev) :=
+  match s.splitOn "@" with
+  | [kind, rest] =>
+    match kind, rest.splitOn ":" with
+    | "U", [t, code] => do pure (← t.toNat?, some (.update (← parseOpt String.toNat? code)))
+    | "T", [t, sv, code, il] => do
+      pure (← t.toNat?, some (.trigger (← sv.toNat?) (← parseOpt String.toNat? code) (← parseBool il)))
+    | "D", [t, sv] => do pure (← t.toNat?, some (.deregister (← sv.toNat?)))
+    | "L", [t, sv, code, exc] => do
+      pure (← t.toNat?, some (.release (← sv.toNat?) (← code.toNat?) (← parseBool exc)))
+    | "W", t :: sv :: acc :: plan => do
+      pure (← t.toNat?, some (.step (← sv.toNat?) (← parsePlan plan) (← parseBool acc)))
+    | _, _ =>
+      match MsgLayer.parseEvent s with
+      | some (t, some (.recv r mcl w)) => some (t, some (.recv r mcl w))
+      | some (t, some (.error r)) => some (t, some (.error r))
+      | some (t, some .shutdown) => some (t, some .shutdown)
+      | some (t, none) => some (t, none)
+      | _ => none
+  | _ => none
+
+/-- inputs the model does not cover: requests other than GET, anything on a multicast address -/
+def outOfModel : Option Ev → Bool
+  | some (.recv _ mcl w) => mcl || (MsgLayer.isRequest w.code && w.code != 1) || w.body != 0 && MsgLayer.isRequest w.code
+  | _ => false
+
+def timerEv : MsgLayer.Timer → Ev
+  | .retransmit r m => .fireRetransmit r m
+  | .emptyAck r t => .fireEmptyAck r t
+  | .expire r m => .fireExpire r m
+
+def tag (t : Nat) (os : List Out) : List String := os.map fun o => s!"{t}/{outStr' o}"
+
+/-- fire the message-layer timers due before `bound`, earliest first -/
+def advance (fuel : Nat) (c : State) (bound : Nat) : State × List String :=
+  match fuel with
+  | 0 => (c, [])
+  | fuel + 1 =>
+    match MsgLayer.earliestBefore c.ml bound with
+    | none => (c, [])
+    | some (t, tm) =>
+      let x := step c { time := t, ev := timerEv tm }
+      let y := advance fuel x.1 bound
+      (y.1, tag t x.2 ++ y.2)
+
+def isStep : Option Ev → Bool
+  | some (.step _ _ _) => true
+  | _ => false
+
+def runScript (c : State) : List (Nat × Option Ev) → List String × Bool × State
+  | [] => ([], false, c)
+  | (t, ev) :: rest =>
+    let a := advance 100000 c (if isStep ev then t + 1 else t)
+    let tie := !isStep ev && MsgLayer.tiesAt a.1.ml t > 0
+    let x : State × List Out := match ev with
+      | some e => step a.1 { time := t, ev := e }
+      | none => ({ a.1 with ml := MsgLayer.setNow a.1.ml t }, [])
+    let y := runScript x.1 rest
+    (a.2 ++ tag t x.2 ++ y.1, tie || y.2.1, y.2.2)
+
+end Aiocoap.Observe.Server
+
 namespace Aiocoap
-def handleC08 (_args : List String) : String := "out-of-model"
+open Observe.Server in
+def handleC08 (args : List String) : String :=
+  match args with
+  | el :: ead :: mid :: mr :: draws :: evs =>
+    match el.toNat?, ead.toNat?, mid.toNat?, mr.toNat?, MsgLayer.parseDraws draws, evs.mapM parseEv with
+    | some el, some ead, some mid, some mr, some draws, some evs =>
+      if evs.any (fun e => outOfModel e.2) then "out-of-model" else
+      let ml := MsgLayer.init { exchangeLifetime := el, emptyAckDelay := ead } mid 0 (fun i => draws.getD i 0)
+      let r := runScript (init ml mr) evs
+      (if r.2.2.ml.drawIdx > draws.length then "STARVED " else "") ++ (if r.2.1 then "TIE " else "") ++
+        ";".intercalate r.1
+    | _, _, _, _, _, _ => "bad-op"
+  | _ => "bad-op"
 end Aiocoap
